@@ -247,6 +247,8 @@ type Answer struct {
 	LostRequest bool
 	// Late: the datagrams Apply enqueues only arrive after this attempt timed out.
 	Late bool
+	// Pre runs before the BMC sees the request (e.g. a repository modification).
+	Pre func(t *Transport)
 }
 
 // Transport is an in-memory model of one UDP socket in front of a BMC.
@@ -350,6 +352,9 @@ func (t *Transport) Send(ctx context.Context, b []byte) ([]byte, error) {
 	a := answers[choice]
 	ex.Answer = a.Name
 	var late []Datagram
+	if a.Pre != nil {
+		a.Pre(t)
+	}
 	if !a.LostRequest {
 		rx = t.BMC.Receive(b)
 		ex.Rx = rx
